@@ -26,7 +26,7 @@ CLAIMED = {
          "deterministic simulation: seeded parked-goroutine scheduler over seam-call yield points with solo-baseline and shared-state-digest oracles; plus the same seeded workloads free-running under the Go race detector",
          "DESIGN.md section 3 C18"),
  "C06": ("exploration",
-         "Seeded simulation of a damaged stored stream read by an arbitrary caller: valid and hostile-producer documents (typed nulls / wrong types / extreme numbers in every symbol-table slot, $n and $0 symbols) hit by 0..3 stored-medium faults (bit flip, byte set, zeroed / lost / duplicated / spliced block, truncation, length / exponent / ID fields replaced by boundary values through the byte map), plus every byte string of length <= 3 over a 24-byte alphabet; each driven by seeded random call sequences over all Reader methods, a full traversal, Decoder.Decode to exhaustion and DecodeTo into a zoo of 40 Go target types, under whole and chunked simulated delivery, with panic, reads-after-end, progress, allocation, worker-death (write-ahead + isolated re-run) and wall-clock watchdogs.",
+         "Seeded simulation of a damaged stored stream read by an arbitrary caller: valid and hostile-producer documents (typed nulls / wrong types / extreme numbers in every symbol-table slot, $n and $0 symbols) hit by 0..3 stored-medium faults (bit flip, byte set, zeroed / lost / duplicated / spliced block, truncation, length / exponent / ID fields replaced by boundary values through the byte map), plus every byte string of length <= 3 over a 24-byte alphabet; each driven by seeded random call sequences over all Reader methods, a full traversal, Decoder.Decode to exhaustion and DecodeTo into a zoo of 68 Go target types (named key, byte and int types, embedded pointers to unexported structs, nested pointers, unsupported kinds), under whole and chunked simulated delivery, with panic, reads-after-end, progress, allocation, worker-death (write-ahead + isolated re-run) and wall-clock watchdogs.",
          "Returned errors are always acceptable (acceptance/rejection is C07). Allocation bound: 32 MiB + 4 KiB x input length. Seam-free infinite loops are caught by a wall-clock stall watchdog confirmed by an isolated re-run.",
          "deterministic simulation with fault injection: stored-medium faults on seeded documents x seeded caller programs x simulated Source delivery, isolated worker processes with write-ahead cases and resource watchdogs",
          "DESIGN.md section 3 C06"),
